@@ -1,9 +1,10 @@
 SPECIFICATION Spec
 CONSTANTS
   Signals = {"traces", "logs"}
-  MaxCum = 3
+  MaxCum = 2
   Steps = {1, 2}
   Overwrite = FALSE
+  ZeroReports = "never"
 INVARIANTS TypeOK Conservation NonNegative NoDoubleCount InFlightIsPending
 PROPERTY DeliveredMonotone OnlyAckDelivers
 ACTION_CONSTRAINT Dump
